@@ -308,6 +308,13 @@ class Tr(object):
                         x = x[2]
                     return (x[0] == "path" and len(x[1]) == 1 and x[1][0] in self.cfg.get("bytes_vars", [])) or \
                         (x[0] == "field" and x[2] in ("0", "1") and self.cfg.get("bytes_vars") is not None)
+                def some_arg(x):
+                    return x[2][0] if x[0] == "call" and x[1] == ("path", ["Some"]) and len(x[2]) == 1 else None
+                if (some_arg(e[2]) is not None) != (some_arg(e[3]) is not None) and not self.cfg.get("opt_bytes_vars"):
+                    # opt == Some(n) on numbers
+                    o, n = (e[3], some_arg(e[2])) if some_arg(e[2]) is not None else (e[2], some_arg(e[3]))
+                    t = "(match %s with Some opt_v => N.eqb opt_v %s | None => false end)" % (self.pure(o, env), self.pure(n, env))
+                    return t if op == "==" else "(negb %s)" % t
                 def is_opt_bytes(x):
                     while x[0] == "unary":
                         x = x[2]
